@@ -232,6 +232,11 @@ theorem good_setClean {s0 : Store} {s : St} (h : Good s0 s) : Good s0 (setClean 
   · simp only [hm]
     exact h
 
+theorem good_flushPins {s0 : Store} {s : St} (h : Good s0 s) : Good s0 (flushPins s) := by
+  unfold flushPins; split
+  · exact good_setClean h
+  · exact h
+
 /-! ### effects of the primitive steps on the views -/
 
 @[simp] theorem write_rec (s : St) (w : Write) (id : Nat) :
@@ -263,6 +268,16 @@ theorem good_setClean {s0 : Store} {s : St} (h : Good s0 s) : Good s0 (setClean 
   unfold setClean; split <;> simp
 @[simp] theorem setClean_memDirty (s : St) : (setClean s).memDirty = false := by
   unfold setClean; split <;> simp_all
+@[simp] theorem flushPins_rec (s : St) (id : Nat) : (flushPins s).store.rec? id = s.store.rec? id := by
+  unfold flushPins; split <;> simp
+@[simp] theorem flushPins_has (s : St) (x : Which) (k v : Nat) :
+    (flushPins s).store.has x k v ↔ s.store.has x k v := by
+  unfold flushPins; split <;> simp
+@[simp] theorem flushPins_nextId (s : St) : (flushPins s).nextId = s.nextId := by
+  unfold flushPins; split <;> simp
+@[simp] theorem flushPins_present (s : St) : (flushPins s).present = s.present := by
+  unfold flushPins; split <;> simp
+
 theorem addPin_rec (s : St) (c : Nat) (m : Mode) (name : Nat) (id : Nat) :
     (addPin s c m name).store.rec? id = if s.nextId = id then some ⟨c, m, name⟩ else s.store.rec? id := by
   unfold addPin
@@ -506,7 +521,6 @@ theorem good_removeIds {s0 : Store} (c : Nat) (mode : Option Mode) :
       have hfr : ∀ t : St, t.nextId = s.nextId → (∀ j, t.store.rec? j = s.store.rec? j) →
           ∀ j, t.nextId ≤ j → t.store.rec? j = none := by
         intro t h1 h2 j hj; rw [h2]; exact h.fresh j (by omega)
-      unfold flushPins
       apply good_setClean
       cases mode with
       | none =>
@@ -532,18 +546,16 @@ theorem good_removePinsForCid {s0 : Store} {s : St} (h : Good s0 s) (c : Nat) (m
 /-- invariant of the pinner between API calls -/
 structure Inv (s : St) : Prop where
   cons : s.store.Consistent
-  clean : s.memDirty = false
-  flag : s.store.dirty ≠ some 1
+  flag : s.memDirty = true ↔ s.store.dirty = some 1
   fresh : ∀ id, s.nextId ≤ id → s.store.rec? id = none
   nodup : RMap.NoDupKeys s.store.recs
 
 theorem Inv.good {s : St} (h : Inv s) (p : List Nat) :
     Good s.store { s with log := [], present := p } :=
-  ⟨Tr.start { s with present := p } ⟨h.cons.1, fun _ => h.cons.2⟩, h.cons,
-    ⟨fun e => by simp [h.clean] at e, fun e => absurd e h.flag⟩, h.fresh, h.nodup⟩
+  ⟨Tr.start { s with present := p } ⟨h.cons.1, fun _ => h.cons.2⟩, h.cons, h.flag, h.fresh, h.nodup⟩
 
-theorem Good.inv {s0 : Store} {s : St} (h : Good s0 s) (hm : s.memDirty = false) : Inv s :=
-  ⟨h.cons, hm, fun e => by have := h.flag.2 e; simp [hm] at this, h.fresh, h.nodup⟩
+theorem Good.inv {s0 : Store} {s : St} (h : Good s0 s) : Inv s :=
+  ⟨h.cons, h.flag, h.fresh, h.nodup⟩
 
 theorem removeIds_removed (c : Nat) (mode : Option Mode) :
     ∀ (ids : List Nat) (s : St), (removeIds c mode ids s true).2 = true := by
@@ -567,91 +579,82 @@ theorem removeIds_any_not_removed (c : Nat) (ids : List Nat) (s : St)
     | none => simp [hp, removeIds_removed] at h
     | some pp => simp [hp, removeIds_removed] at h
 
-theorem flushPins_memDirty (s : St) : (flushPins s).memDirty = false := setClean_memDirty s
-
-theorem good_pinRecursive {s0 : Store} {s : St} (h : Good s0 s) (hm : s.memDirty = false)
+theorem good_pinRecursive {s0 : Store} {s : St} (h : Good s0 s)
     (dag : Dag) (c : Nat) (fetch : Bool) (name : Nat) (ctx : Ctx) :
-    Good s0 (pinRecursive dag s c fetch name ctx).1 ∧ (pinRecursive dag s c fetch name ctx).1.memDirty = false := by
+    Good s0 (pinRecursive dag s c fetch name ctx).1 := by
   unfold pinRecursive
   split
-  · exact ⟨h, hm⟩
+  · exact h
   · split
-    · exact ⟨h, hm⟩
+    · exact h
     · split
-      · exact ⟨h, hm⟩
-      · exact ⟨good_setClean (good_removeIds _ _ _ _ _ (good_removeIds _ _ _ _ _ (good_addPin h _ _ _))),
-          flushPins_memDirty _⟩
+      · exact h
+      · exact good_flushPins (good_removeIds _ _ _ _ _ (good_removeIds _ _ _ _ _ (good_addPin h _ _ _)))
 
-theorem good_pinDirect {s0 : Store} {s : St} (h : Good s0 s) (hm : s.memDirty = false)
-    (c : Nat) (name : Nat) (ctx : Ctx) :
-    Good s0 (pinDirect s c name ctx).1 ∧ (pinDirect s c name ctx).1.memDirty = false := by
+theorem good_pinDirect {s0 : Store} {s : St} (h : Good s0 s) (c : Nat) (name : Nat) (ctx : Ctx) :
+    Good s0 (pinDirect s c name ctx).1 := by
   unfold pinDirect
   split
-  · exact ⟨h, hm⟩
+  · exact h
   · split
-    · exact ⟨h, hm⟩
-    · exact ⟨good_setClean (good_removeIds _ _ _ _ _ (good_addPin h _ _ _)), flushPins_memDirty _⟩
+    · exact h
+    · exact good_flushPins (good_removeIds _ _ _ _ _ (good_addPin h _ _ _))
 
-theorem good_unpin {s0 : Store} {s : St} (h : Good s0 s) (hm : s.memDirty = false)
-    (c : Nat) (recursive : Bool) (ctx : Ctx) :
-    Good s0 (unpin s c recursive ctx).1 ∧ (unpin s c recursive ctx).1.memDirty = false := by
+theorem good_unpin {s0 : Store} {s : St} (h : Good s0 s) (c : Nat) (recursive : Bool) (ctx : Ctx) :
+    Good s0 (unpin s c recursive ctx).1 := by
   have go : Good s0 (if (removePinsForCid s c none).2 then (flushPins (removePinsForCid s c none).1, Res.ok)
-        else ((removePinsForCid s c none).1, Res.ok)).1 ∧
-      (if (removePinsForCid s c none).2 then (flushPins (removePinsForCid s c none).1, Res.ok)
-        else ((removePinsForCid s c none).1, Res.ok)).1.memDirty = false := by
-    by_cases hr : (removePinsForCid s c none).2 = true
-    · simp only [hr, if_true]
-      exact ⟨good_setClean (good_removePinsForCid h c none), flushPins_memDirty _⟩
-    · simp only [hr]
-      have : (removePinsForCid s c none).1 = s := by
-        unfold removePinsForCid at hr ⊢
-        exact removeIds_any_not_removed _ _ _ (by simpa using hr)
-      simp only [Bool.false_eq_true, if_false, this]
-      exact ⟨h, hm⟩
+        else ((removePinsForCid s c none).1, Res.ok)).1 := by
+    split
+    · exact good_flushPins (good_removePinsForCid h c none)
+    · exact good_removePinsForCid h c none
   unfold unpin
   split
-  · exact ⟨h, hm⟩
+  · exact h
   · simp only []
     split
     · split
       · exact go
-      · exact ⟨h, hm⟩
+      · exact h
     · split
       · exact go
-      · exact ⟨h, hm⟩
+      · exact h
 
-theorem good_update {s0 : Store} {s : St} (h : Good s0 s) (hm : s.memDirty = false)
+theorem good_update {s0 : Store} {s : St} (h : Good s0 s)
     (dag : Dag) (src dst : Nat) (u : Bool) (ctx : Ctx) :
-    Good s0 (update dag s src dst u ctx).1 ∧ (update dag s src dst u ctx).1.memDirty = false := by
+    Good s0 (update dag s src dst u ctx).1 := by
   unfold update
   simp only []
   repeat' split
   all_goals first
-    | exact ⟨h, hm⟩
-    | exact ⟨good_setClean (good_removePinsForCid (good_addPin h _ _ _) _ _), flushPins_memDirty _⟩
-    | exact ⟨good_setClean (good_addPin h _ _ _), flushPins_memDirty _⟩
+    | exact h
+    | exact good_flushPins (good_removePinsForCid (good_addPin h _ _ _) _ _)
+    | exact good_flushPins (good_addPin h _ _ _)
 
-theorem good_step (dag : Dag) {s : St} (h : Inv s) (op : Op) :
-    Good s.store (step dag s op).1 ∧ (step dag s op).1.memDirty = false := by
+theorem Good.setAutosync {s0 : Store} {s : St} (h : Good s0 s) (b : Bool) : Good s0 { s with autoSync := b } :=
+  ⟨h.tr, h.cons, h.flag, h.fresh, h.nodup⟩
+
+theorem good_step (dag : Dag) {s : St} (h : Inv s) (op : Op) : Good s.store (step dag s op).1 := by
   unfold step
   cases op with
   | pin c recursive name ctx =>
     simp only []
     split
-    · exact good_pinRecursive (h.good _) h.clean _ _ _ _ _
-    · exact good_pinDirect (h.good _) h.clean _ _ _
+    · exact good_pinRecursive (h.good _) _ _ _ _ _
+    · exact good_pinDirect (h.good _) _ _ _
   | pinMode c mode name ctx =>
     simp only []
     split
-    · exact good_pinRecursive (h.good _) h.clean _ _ _ _ _
+    · exact good_pinRecursive (h.good _) _ _ _ _ _
     · split
-      · exact good_pinDirect (h.good _) h.clean _ _ _
-      · exact ⟨h.good _, h.clean⟩
-  | unpin c recursive ctx => exact good_unpin (h.good _) h.clean _ _ _
-  | update src dst u ctx => exact good_update (h.good _) h.clean _ _ _ _ _
+      · exact good_pinDirect (h.good _) _ _ _
+      · exact h.good _
+  | unpin c recursive ctx => exact good_unpin (h.good _) _ _ _
+  | update src dst u ctx => exact good_update (h.good _) _ _ _ _ _
+  | setAutosync b => exact (h.good _).setAutosync b
+  | flush => exact good_setClean (h.good _)
 
 theorem inv_step (dag : Dag) {s : St} (h : Inv s) (op : Op) : Inv (step dag s op).1 :=
-  (good_step dag h op).1.inv (good_step dag h op).2
+  (good_step dag h op).inv
 
 /-! ### reopen: New + rebuildIndexes -/
 
@@ -809,25 +812,24 @@ theorem reopen_inv (st : Store) (n : Nat) (p : List Nat) (hs : st.Safe)
       exact ⟨(h1 _ _ _).2 (Or.inr ⟨(id, pp), hm, Or.inl ⟨rfl, rfl, rfl⟩⟩),
         fun h0 => (h1 _ _ _).2 (Or.inr ⟨(id, pp), hm, Or.inr ⟨rfl, h0, rfl, rfl⟩⟩)⟩
     have hmem : s1.memDirty = true := sb1.mem
-    refine ⟨⟨⟨?_, ?_⟩, ?_, ?_, ?_, ?_⟩, ?_, ?_, ?_⟩
-    · constructor <;> intro a b hab <;> simp only [flushPins, setClean_has, setClean_rec] at hab ⊢
+    refine ⟨⟨⟨?_, ?_⟩, ?_, ?_, ?_⟩, ?_, ?_, ?_⟩
+    · constructor <;> intro a b hab <;> simp only [setClean_has, setClean_rec] at hab ⊢
       · exact n1.r a b hab
       · exact n1.d a b hab
       · exact n1.n a b hab
     · intro id pp hp
-      simp only [flushPins, setClean_has, setClean_rec] at hp ⊢
+      simp only [setClean_has, setClean_rec] at hp ⊢
       exact hix id pp hp
-    · exact setClean_memDirty _
-    · simp [flushPins, setClean, hmem, St.write, Store.dirty_apply]
+    · simp [setClean, hmem, St.write, Store.dirty_apply]
     · intro id hid
-      simp only [flushPins, setClean_rec, setClean_nextId, sb1.nextId, sb1.recOf] at hid ⊢
+      simp only [setClean_rec, setClean_nextId, sb1.nextId, sb1.recOf] at hid ⊢
       exact hf id hid
-    · simp [flushPins, setClean, hmem, St.write, Store.apply, sb1.recs, hnd]
-    · simp [flushPins, setClean, hmem, St.write, Store.apply, sb1.recs]
-    · simp [flushPins, sb1.nextId]
-    · simp [flushPins, sb1.present]
+    · simp [setClean, hmem, St.write, Store.apply, sb1.recs, hnd]
+    · simp [setClean, hmem, St.write, Store.apply, sb1.recs]
+    · simp [sb1.nextId]
+    · simp [sb1.present]
   · simp only [hd, if_false]
-    refine ⟨⟨⟨hs.1, hs.2 hd⟩, rfl, hd, hf, hnd⟩, ?_⟩
+    refine ⟨⟨⟨hs.1, hs.2 hd⟩, ⟨fun e => by simp at e, fun e => absurd e hd⟩, hf, hnd⟩, ?_⟩
     simp
 
 /-! ### shape of the write log of one operation -/
@@ -907,6 +909,11 @@ theorem logOK_setClean {s : St} (h : LogOK s) : LogOK (setClean s) := by
     exact ⟨this.order, this.bound⟩
   · exact h
 
+theorem logOK_flushPins {s : St} (h : LogOK s) : LogOK (flushPins s) := by
+  unfold flushPins; split
+  · exact logOK_setClean h
+  · exact h
+
 theorem logOK_addPin {s : St} (h : LogOK s) (hn : NoRecW s) (c : Nat) (m : Mode) (name : Nat) :
     LogOK (addPin s c m name) := by
   have h1 : LogOK { s with nextId := s.nextId + 1 } :=
@@ -946,7 +953,6 @@ theorem logOK_removeIds (c : Nat) (mode : Option Mode) :
     | none =>
       simp only []
       apply ih
-      unfold flushPins
       apply logOK_setClean
       have h1 := logOK_setDirty h
       cases mode with
@@ -964,7 +970,7 @@ theorem nextId_removeIds (c : Nat) (mode : Option Mode) :
     cases RMap.find s.store.recs id with
     | some pp => simp only []; split <;> simp [ih]
     | none =>
-      simp only [ih, flushPins, setClean_nextId, repairIdx]
+      simp only [ih, setClean_nextId, repairIdx]
       cases mode with
       | none => simp
       | some md => cases md <;> simp
@@ -980,7 +986,7 @@ theorem present_removeIds (c : Nat) (mode : Option Mode) :
     cases RMap.find s.store.recs id with
     | some pp => simp only []; split <;> simp [ih]
     | none =>
-      simp only [ih, flushPins, setClean_present, repairIdx]
+      simp only [ih, setClean_present, repairIdx]
       cases mode with
       | none => simp
       | some md => cases md <;> simp
@@ -1001,14 +1007,14 @@ theorem logOK_step (dag : Dag) (s : St) (op : Op) : LogOK (step dag s op).1 := b
     repeat' split
     all_goals first
       | exact h0 p
-      | exact logOK_setClean (logOK_removeIds _ _ _ _ _ (logOK_removeIds _ _ _ _ _ (logOK_addPin (h0 p) (n0 p) _ _ _)))
+      | exact logOK_flushPins (logOK_removeIds _ _ _ _ _ (logOK_removeIds _ _ _ _ _ (logOK_addPin (h0 p) (n0 p) _ _ _)))
   have hdir : ∀ p c name ctx, LogOK (pinDirect { s with log := [], present := p } c name ctx).1 := by
     intro p c name ctx
     unfold pinDirect
     repeat' split
     all_goals first
       | exact h0 p
-      | exact logOK_setClean (logOK_removeIds _ _ _ _ _ (logOK_addPin (h0 p) (n0 p) _ _ _))
+      | exact logOK_flushPins (logOK_removeIds _ _ _ _ _ (logOK_addPin (h0 p) (n0 p) _ _ _))
   unfold step
   cases op with
   | pin c recursive name ctx =>
@@ -1028,15 +1034,17 @@ theorem logOK_step (dag : Dag) (s : St) (op : Op) : LogOK (step dag s op).1 := b
     repeat' split
     all_goals first
       | exact h0 _
-      | exact logOK_setClean (logOK_removePinsForCid (h0 _) _ _)
+      | exact logOK_flushPins (logOK_removePinsForCid (h0 _) _ _)
       | exact logOK_removePinsForCid (h0 _) _ _
   | update src dst u ctx =>
     simp only [update]
     repeat' split
     all_goals first
       | exact h0 _
-      | exact logOK_setClean (logOK_removePinsForCid (logOK_addPin (h0 _) (n0 _) _ _ _) _ _)
-      | exact logOK_setClean (logOK_addPin (h0 _) (n0 _) _ _ _)
+      | exact logOK_flushPins (logOK_removePinsForCid (logOK_addPin (h0 _) (n0 _) _ _ _) _ _)
+      | exact logOK_flushPins (logOK_addPin (h0 _) (n0 _) _ _ _)
+  | setAutosync b => exact ⟨(h0 s.present).order, (h0 s.present).bound⟩
+  | flush => exact logOK_setClean (h0 s.present)
 
 theorem nextId_step_le (dag : Dag) (s : St) (op : Op) : s.nextId ≤ (step dag s op).1.nextId := by
   unfold step
@@ -1044,19 +1052,21 @@ theorem nextId_step_le (dag : Dag) (s : St) (op : Op) : s.nextId ≤ (step dag s
   | pin c recursive name ctx =>
     simp only [pinRecursive, pinDirect]
     repeat' split
-    all_goals simp [flushPins, nextId_removeIds]
+    all_goals simp [nextId_removeIds]
   | pinMode c mode name ctx =>
     simp only [pinRecursive, pinDirect]
     repeat' split
-    all_goals simp [flushPins, nextId_removeIds]
+    all_goals simp [nextId_removeIds]
   | unpin c recursive ctx =>
     simp only [unpin]
     repeat' split
-    all_goals simp [flushPins, nextId_removePinsForCid]
+    all_goals simp [nextId_removePinsForCid]
   | update src dst u ctx =>
     simp only [update]
     repeat' split
-    all_goals simp [flushPins, nextId_removePinsForCid]
+    all_goals simp [nextId_removePinsForCid]
+  | setAutosync b => simp
+  | flush => simp
 
 /-! ### crash images -/
 
@@ -1216,7 +1226,7 @@ theorem crashReopen_spec (dag : Dag) (s : St) (op : Op) (n : Nat) (h : Inv s) :
     (crashReopen dag s op n).store.recs = (s.store.applyAll ((step dag s op).1.log.take n)).recs := by
   unfold crashReopen
   have := reopen_inv _ (step dag s op).1.nextId (step dag s op).1.present
-    ((good_step dag h op).1.tr.2 n) (applyAll_nodup _ _ h.nodup) (crash_fresh dag s op n h)
+    ((good_step dag h op).tr.2 n) (applyAll_nodup _ _ h.nodup) (crash_fresh dag s op n h)
   exact ⟨this.1, this.2.1⟩
 
 end C22
